@@ -429,8 +429,11 @@ void Sim::violation(const std::string &oracle, const char *fmt, ...) {
     va_start(ap, fmt);
     vsnprintf(buf, sizeof(buf), fmt, ap);
     va_end(ap);
-    if (verbose) fprintf(stderr, "[%lld.%06lld] VIOLATION %s: %s\n", (long long)(now / SEC), (long long)((now % SEC) / US), oracle.c_str(), buf);
-    if (violations.size() < 16) violations.push_back(Violation{oracle, buf});
+    std::string oid = oracle;
+    auto al = alias.find(oracle);
+    if (al != alias.end()) oid = al->second;
+    if (verbose) fprintf(stderr, "[%lld.%06lld] VIOLATION %s: %s\n", (long long)(now / SEC), (long long)((now % SEC) / US), oid.c_str(), buf);
+    if (violations.size() < 16) violations.push_back(Violation{oid, buf});
     stat["violations"]++;
 }
 void Sim::note(const char *fmt, ...) {
